@@ -433,4 +433,16 @@ void run_C14(void) {
       case_to_tnx(m, 0, 48, 0, rep);
       case_cplx_to_tnx32(m, 0, 18, 0, rep);
     }
+  for (uint64_t m = 1; m <= 65536; m <<= 1)
+    for (int v = 0; v < 4; v++) {
+      const unsigned rep = 30;
+      if (v == 3 && m < 2) continue;
+      case_from_znx64(m, v, rep);
+      for (int t = 0; t <= 1; t++)
+        if (!(v == 3 && m < 8)) case_cplx_from(m, t, v, rep);
+      if (!(v == 3 && m < 4)) case_to_tnx(m, v, (unsigned)(m % 49), (int)(m % 7) - 3, rep);
+      if (!(v == 3 && m < 8)) case_cplx_to_tnx32(m, v, 18, 3, rep);
+      for (int vv = 0; vv < 5; vv++)
+        if (!(vv >= 3 && m < 2) && v == 0) case_to_znx64(m, vv, vv != 3, 7, rep);
+    }
 }
